@@ -226,6 +226,14 @@ func init() {
 		},
 		Init: func(w *wk.Worker) {
 			debug.SetMaxStack(64 << 20)
+			// other engines link the bundled packages into this binary; this
+			// workload must not reach os.Exit, exec, files or sockets through import()
+			for k := range env.Packages {
+				delete(env.Packages, k)
+			}
+			for k := range env.PackageTypes {
+				delete(env.PackageTypes, k)
+			}
 		},
 		Run: func(c *wk.Case) {
 			cor := corpus.Scripts()
